@@ -64,7 +64,7 @@ def t_opt(x):
 
 
 def t_rec(r):
-    return f"{r['cstep']} {t_opt(r['rf'])} {tl(r['active'])} {r['traj_num']} {tl(r['locked'], t_job)}"
+    return f"{r['cstep']} {t_opt(r['rf'])} {tl(r['active'])} {r['traj_num']} {tl(r['locked'], t_job)} {r.get('steps', 0)}"
 
 
 def t_rfile(r):
@@ -84,7 +84,7 @@ def t_disk(files, rows, garbled, torn, restart, tmp):
 
 def t_mem(m):
     return (f"{m['cstep']} {t_opt(m['rf'])} {tl(m['live'], t_pinfo)} {m['traj_num']} "
-            f"{tl(m['olds'], lambda o: f'{o[0]} {tl(o[1])}')} {tl(m['locked'], t_job)}")
+            f"{tl(m['olds'], lambda o: f'{o[0]} {tl(o[1])}')} {tl(m['locked'], t_job)} {m.get('steps', 0)}")
 
 
 def t_choice(c):
@@ -124,7 +124,8 @@ class Toks:
         cs, rf = self.nat(), self.opt()
         act = self.lst(self.nat)
         tn = self.nat()
-        return {"cstep": cs, "rf": rf, "active": act, "traj_num": tn, "locked": self.lst(self.job)}
+        lk = self.lst(self.job)
+        return {"cstep": cs, "rf": rf, "active": act, "traj_num": tn, "locked": lk, "steps": self.nat()}
 
     def rfile(self):
         t = self.nat()
@@ -145,7 +146,8 @@ class Toks:
         live = self.lst(self.pinfo)
         tn = self.nat()
         olds = self.lst(lambda: (self.nat(), self.lst(self.nat)))
-        return {"cstep": cs, "rf": rf, "live": live, "traj_num": tn, "olds": olds, "locked": self.lst(self.job)}
+        lk = self.lst(self.job)
+        return {"cstep": cs, "rf": rf, "live": live, "traj_num": tn, "olds": olds, "locked": lk, "steps": self.nat()}
 
 
 def disk_tokens(d):
@@ -228,6 +230,7 @@ def parse_current(text):
         cur = cfg["current"]
         return {"cstep": int(cur["cstep"]), "rf": cur.get("restarted_from"),
                 "active": [int(a) for a in cur["active"]], "traj_num": int(cur["traj_num"]),
+                "steps": int(cfg["simulation"]["steps"]),
                 "locked": [([int(e) for e in l[0]], [int(p) for p in l[1]]) for l in cur.get("locked", [])]}
     except Exception:  # noqa: BLE001
         return None
@@ -291,6 +294,7 @@ class Segment:
         self.completion = spec.get("completion", completion)
         self.label = label
         self.case_filter = None
+        self.pre_clean = None
         self.n = spec["nintf"] + 1
         self.steps = []
         self.variant = None
@@ -440,7 +444,7 @@ class Segment:
         pinfo = dict(self.model0["pinfo"])
         manifest = dict(self.model0["manifest"])
         cfg = f"{self.n} {1 if self.spec.get('delete_old') else 0} {1 if self.spec.get('delete_old_all') else 0} " \
-              f"{0 if self.variant == 'asIs' else 1}"
+              f"{0 if self.variant == 'asIs' else 1} {1 if cleans_on_restart() else 0}"
         self.cfg = cfg
         for si, st in enumerate(self.steps):
             if st["rec"] is None or len(st["rows"]) != len(st["blocks"]):
@@ -555,9 +559,31 @@ class Segment:
                 p = "infretis_data.txt"
             real.append((e["op"], p, e.get("dest")))
         # a failed mkdir (directory exists) is audited but is no effect: the model lists it too (no-op)
-        if [x[1] for x in exp] != real:
+        expl = [x[1] for x in exp]
+        st["unordered"] = set()
+        if expl != real and len(expl) == len(real):
+            # os.listdir order of the leftovers in accepted/: compare such runs as sets
+            def is_acc_remove(x):
+                return x[0] == "remove" and re.fullmatch(r"load/\d+/accepted/.+", x[1] or "") is not None
+            i = 0
+            expl2 = list(expl)
+            while i < len(real):
+                if is_acc_remove(real[i]):
+                    j = i
+                    while j < len(real) and is_acc_remove(real[j]) and os.path.dirname(real[j][1]) == os.path.dirname(real[i][1]):
+                        j += 1
+                    if sorted(real[i:j]) == sorted(expl[i:j]) and real[i:j] != expl[i:j]:
+                        expl2[i:j] = real[i:j]
+                        st["unordered"].update(st["ev"][i + 1:j])
+                    i = j
+                else:
+                    i += 1
+            if expl2 == real:
+                self.ctx.hit("leftover-run-order-differs")
+                expl = expl2
+        if expl != real:
             self.ctx.disagree({"segment": self.label, "step": si, "kind": st["kind"], "what": "effect sequence"},
-                              real, [x[1] for x in exp])
+                              real, expl)
             st["align"] = None
             return
         st["align"] = {st["ev"][n]: exp[n][0] for n in range(len(real))}
@@ -579,6 +605,12 @@ class Segment:
                 if m == "before" or e["op"] in ("open-w", "open-a"):
                     cases.append((e["k"], m))
         return cases
+
+
+def cleans_on_restart():
+    """does this infretis have the restart-side `clean_data_file` (05f8082)?  (model switch Cfg.cleanOnRestart)"""
+    import infretis.setup as isetup
+    return hasattr(isetup, "clean_data_file")
 
 
 def initial_model(spec, root, reg):
@@ -606,7 +638,8 @@ def initial_model(spec, root, reg):
         pinfo[pn] = p
         manifest[cid] = [n for n, _ in fl]
         live.append(p)
-    mem = {"cstep": 0, "rf": None, "live": live, "traj_num": spec["nintf"], "olds": [], "locked": []}
+    mem = {"cstep": 0, "rf": None, "live": live, "traj_num": spec["nintf"], "olds": [], "locked": [],
+           "steps": spec["steps"]}
     disk = {"files": files, "rows": [], "garbled": 0, "torn": False, "restart": None, "tmp": None}
     return {"mem": mem, "disk": disk, "pinfo": pinfo, "manifest": manifest}
 
@@ -757,7 +790,7 @@ def enumerate_segment(ctx, seg, work, tag, depth_cb=None, limit_events=None, mod
                     c["mpoint"] = (nxt, 0, False)
             else:
                 st = seg.steps[e["step"]]
-                if st.get("align"):
+                if st.get("align") and k not in st.get("unordered", ()):
                     j = st["align"][k]
                     c["mpoint"] = (e["step"], j if mode == "before" else j + 1, mode == "half")
             if "mpoint" in c:
@@ -768,6 +801,8 @@ def enumerate_segment(ctx, seg, work, tag, depth_cb=None, limit_events=None, mod
                 if e["step"] is None:
                     # between two steps: the worker has not produced this step's trajectory files yet
                     pre_disk = dict(pre_disk, files={k_: v for k_, v in pre_disk["files"].items() if k_[0] != 6})
+                    if "clean_data_file" in e["tags"] and seg.pre_clean is not None:
+                        pre_disk.update(seg.pre_clean)   # the restart has not replaced the data file yet
                 elif st["has_del"]:
                     pre_mem = seg.reorder_olds(pre_mem, [x for x in res["events"] if x["k"] in st["ev"]])
                 c["model_line"] = (f"crash {seg.cfg} {t_mem(pre_mem)} {disk_tokens(pre_disk)} "
@@ -783,8 +818,11 @@ def enumerate_segment(ctx, seg, work, tag, depth_cb=None, limit_events=None, mod
         if ans == "bad-op":
             ctx.disagree({"segment": seg.label, "k": c["k"], "mode": c["mode"]}, "driver rejected the crash line", "-")
             continue
-        dtok, flags, rec_s, restored = ans.split(" | ")
+        dtok, flags, rec_s, restored, cleaned = ans.split(" | ")
         c["mdisk"] = Toks(dtok).disk()
+        if cleaned != "-":
+            t = Toks(cleaned)
+            c["mcleaned"] = {"rows": t.lst(t.nat), "garbled": t.nat(), "torn": bool(t.nat())}
         c["mflags"] = dict(f.split("=") for f in flags.split())
         c["mrestored"] = None if restored == "-" else Toks(restored).mem()
         st = seg.steps[c["mpoint"][0]]
@@ -996,6 +1034,9 @@ def second_life(ctx, seg, c, work, hist_id, n2, limit2):
         man = dict(seg.steps[c["mpoint"][0]]["manifest"])
         # leftovers in the worker directory are the worker's business (it cleans its directory): drop them
         d0 = dict(c["mdisk"], files={k_: v for k_, v in c["mdisk"]["files"].items() if k_[0] != 6})
+        seg2.pre_clean = {k_: c["mdisk"][k_] for k_ in ("rows", "garbled", "torn")}
+        if "mcleaned" in c:
+            d0.update(c["mcleaned"])        # setup_config's clean_data_file ran before anything else
         seg2.model0 = {"mem": c["mrestored"], "disk": d0, "pinfo": pin, "manifest": man}
         seg2.model_ok = True
         seg2.run_model()
